@@ -40,6 +40,12 @@ type crlArtefact struct {
 }
 
 func newCRLWorld(issuerKey string, nDP int, freshestInCert bool, issuerCRLSign bool, ocspURLs []string) *crlWorld {
+	return newCRLWorldQuery(issuerKey, nDP, freshestInCert, issuerCRLSign, ocspURLs, false)
+}
+
+// newCRLWorldQuery: with query set, the distribution points share host and path and differ only in the query string
+// (http://crl.test/dist/base?partition=N, as some CA products publish them).
+func newCRLWorldQuery(issuerKey string, nDP int, freshestInCert bool, issuerCRLSign bool, ocspURLs []string, query bool) *crlWorld {
 	w := &crlWorld{otherKey: pki.K("p384-b"), prefix: "http://crl.test"}
 	rt := pki.RootTmpl("c05 issuer")
 	if !issuerCRLSign {
@@ -48,6 +54,10 @@ func newCRLWorld(issuerKey string, nDP int, freshestInCert bool, issuerCRLSign b
 	w.root = pki.Issue(rt, pki.K(issuerKey), nil, nil)
 	lt := pki.LeafTmpl("c05 leaf")
 	for i := 0; i < nDP; i++ {
+		if query {
+			w.urls = append(w.urls, fmt.Sprintf("http://crl.test/dist/base?partition=%d", urlLabel[i]))
+			continue
+		}
 		w.urls = append(w.urls, fmt.Sprintf("http://crl.test/dp%d/base", urlLabel[i]))
 	}
 	lt.CRL = w.urls
@@ -230,12 +240,13 @@ type c05Scenario struct {
 	freshest  bool
 	crlSign   bool
 	free      bool
+	query     bool // distribution points that differ only in their query string, real HTTPFetcher with a (correct) cache
 	once      sync.Once
 	w         *crlWorld
 }
 
 func (s *c05Scenario) world() *crlWorld {
-	s.once.Do(func() { s.w = newCRLWorld(s.issuerKey, s.nDP, s.freshest, s.crlSign, nil) })
+	s.once.Do(func() { s.w = newCRLWorldQuery(s.issuerKey, s.nDP, s.freshest, s.crlSign, nil, s.query) })
 	return s.w
 }
 
@@ -277,6 +288,17 @@ func c05Scenarios(tier mc.Tier) []mc.Scenario {
 				}
 			}
 		}
+	}
+	// distribution points that differ only in the query string, through the real HTTPFetcher with a correct in-memory cache:
+	// every point is its own source (a bundle cached for one must not answer for another)
+	for n := 2; n <= 3; n++ {
+		s := &c05Scenario{issuerKey: "p256-a", nDP: n, fetcher: "http", crlSign: true, free: n == 2, query: true}
+		bound := 2
+		if s.free {
+			bound = -1
+		}
+		out = append(out, mc.Scenario{Name: fmt.Sprintf("C05-p256-dp%d-http-cache-points-differing-in-query-only", n), Bound: bound, Body: s.body,
+			Params: map[string]string{"issuer": "p256-a", "dps": fmt.Sprint(n), "fetcher": "http+cache", "urls": "http://crl.test/dist/base?partition=N"}})
 	}
 	return out
 }
@@ -334,6 +356,14 @@ func (s *c05Scenario) body(c *mc.Ctx) {
 		return b
 	}
 	dpOf := func(u string) int {
+		if s.query {
+			for i := range w.urls {
+				if u == w.urls[i] {
+					return i
+				}
+			}
+			// (delta locations keep their own paths)
+		}
 		for i := range w.urls {
 			if strings.HasPrefix(u, fmt.Sprintf("http://crl.test/dp%d/", urlLabel[i])) {
 				return i
@@ -365,7 +395,7 @@ func (s *c05Scenario) body(c *mc.Ctx) {
 			}
 			a := w.artefact(pick(dp), dp)
 			switch {
-			case strings.HasSuffix(r.URL, "/base"):
+			case strings.HasSuffix(r.URL, "/base") || strings.Contains(r.URL, "/base?"):
 				if a.fetchErr {
 					return netsim.Answer{Err: netsim.ErrTransport}
 				}
@@ -381,6 +411,9 @@ func (s *c05Scenario) body(c *mc.Ctx) {
 		hf, err := corecrl.NewHTTPFetcher(tr.Client())
 		if err != nil {
 			panic(mc.HarnessError{Msg: err.Error()})
+		}
+		if s.query {
+			hf.Cache = &memCache{m: map[string]*corecrl.Bundle{}} // a fresh, correct cache per execution
 		}
 		fetcher = hf
 	}
